@@ -26,7 +26,7 @@ CLAIMS = {
          "a removed id never trades again along any history that does not re-add it, reads are the identity. Tie: E-seq/E-seq0 with all five update kinds and reads inserted at random; C07.ok judges every real update.",
          "Lean 4 proof over histories; differential (metamorphic for reads) correspondence with Lean judge", "DESIGN §6 C07"),
  "C15": ("Theorems over all admissible histories with orders at the level's price: the four counters equal (mod 2^64) the event counts an observer derives from return values; exact while they fit. "
-         "Sequential half; the concurrent half is not yet built. Tie: E-seq/E-seq0, counters compared and judged by C15.ok after every op.",
+         "Sequential half proved; concurrent half: the statistics steps are part of the small-step model and compared event for event under the scheduler, and C15.ok is judged at quiescence of every concurrent run (no theorem over schedules yet). Tie: E-seq/E-seq0/E-conc.",
          "Lean 4 proof by loop invariant + induction over histories; differential correspondence with Lean judge", "DESIGN §6 C15"),
  "C04": ("The full property is false of the crate (two characterised deviations, recorded as known findings F1/F2 with Lean counterexamples evaluated on the model and replayed on the crate). Proved: C04_partial — every maker visit takes the head of the hand-out order; leave / replenish-requeue / add / cancel / same-price amend act on the hand-out order exactly as the property prescribes unless F1 or F2. "
          "Not proved: composition of the per-visit lemmas over a whole match call. Tie: E-seq maker sequences compared with the model, deviations classified by the driver.",
@@ -40,6 +40,17 @@ CLAIMS = {
  "C11": ("The full property is false of the crate (known finding, Lean counterexample evaluated on the model and replayed on the crate). Proved: C11_partial — the restored level hands out its orders exactly in snapshot (timestamp) order, so it reproduces the original's order iff the original's hand-out order equals its listing. "
          "Not proved: lifting to equal outputs for every continuation. Tie: E-seq with a forked real level restored from the snapshot and fed the same continuation; differences classified by the driver.",
          "Lean 4 proof (partial) + counterexample by evaluation + differential correspondence on two real levels; known finding", "DESIGN §6 C11"),
+ "C03": ("Theorems over the Lean small-step model for EVERY schedule, any number of threads/ops: the inductive invariant CInv (each 64-bit counter = sum over the map + every thread's credit, modulo 2^64; every order id in exactly one place), the supply potential never grows (BInv), hence at every point the stored counters are the exact un-wrapped quantities and at quiescence the aggregates equal the sums over the resting orders. "
+         "Partial: the per-order ledger is judged on real runs (C03.idOk), not proved over the small-step model. Tie: real threads under a deterministic scheduler, event traces compared step by step with the model.",
+         "Lean 4 proof: inductive invariant over an interleaving transition system (45 program-counter kinds), induction over schedules; trace-level correspondence on real threads under a deterministic scheduler", "DESIGN §6 C03"),
+ "C08": ("Theorems for every schedule: the ticket-cover invariant (every key has a ticket, or a thread owes/holds it), ownership (handed out at most once), and at quiescence the configuration is a well-formed level — so the sequential theorems apply: a draining match exhausts displayed liquidity and leaves exact aggregates (C08_drain). Tie: E-conc traces + a draining match after the join, judged by C08.scan / C06.ok / C01.ok on the real crate.",
+         "Lean 4 proof: cover + ownership invariants over all schedules, composition with the sequential termination/exhaustion theorems; E-conc correspondence", "DESIGN §6 C08"),
+ "C12": ("Theorem for every schedule and every prefix: the stored counters equal sum over the map + credits (natural numbers, nothing owed) and are bounded by the total ever supplied (< 2^64), so a reader's load, schedulable anywhere, never sees a wrapped value. Tie: the scheduler reads the three aggregates after every single step of every thread; judged by C12.ok.",
+         "Lean 4 proof: potential-function bound + congruence invariant over all schedules; E-conc with per-step observation", "DESIGN §6 C12"),
+ "C13": ("First half false of the crate (known finding C13/in-flight, Lean counterexample by evaluation of the small-step model, replayed on the crate under the scheduler). Proved for every schedule: a successful cancel is final (the id is never again in the map or in any thread's hands), a lookup while the order is in the map finds it, not-found is answered exactly when the order is not in the map at that instant. Tie: E-conc traces judged per lookup.",
+         "Lean 4 proof (ownership monotonicity over all schedules) + counterexample; E-conc correspondence; known finding", "DESIGN §6 C13"),
+ "C14": ("Theorems for every schedule and any number of threads/calls: a draw is one atomic step; the values drawn along any interleaving are g, g+1, … (mod 2^64) in draw order, pairwise distinct below 2^64 draws, and depend only on the starting counter and the number of draws (reproducibility). Assumed: Uuid::new_v5 injective on distinct decimal strings. Tie: E-conc trace must show exactly one fetch_add(1) per draw; ids mapped back to counters via v5(ns,k) computed by the harness.",
+         "Lean 4 proof by induction over schedules; E-conc + E-seq correspondence", "DESIGN §6 C14"),
 }
 PENDING = {
 }
